@@ -74,7 +74,16 @@ func c10ReadConfig(e *Env, rule string) {
 	r.Check(trueStores >= 1 && okFound, rule, key+"#found-only-after-merge", fmt.Sprintf("the 'some file was processed' flag is set only after a successful merge (%d stores)", trueStores))
 	// error sites of Run itself
 	guards := map[string]bool{}
-	for _, s := range errorSites([]*ssa.Function{run}) {
+	// Run itself and the helpers of its package it calls directly (an extracted loop keeps its guards)
+	siteFns := []*ssa.Function{run}
+	for _, c := range callsIn(run, true) {
+		if g := c.Common().StaticCallee(); g != nil && g.Pkg == run.Pkg && g != run && len(g.Blocks) > 0 && g.Signature.Recv() == nil {
+			if v := c.Value(); v != nil && v.Referrers() != nil && len(*v.Referrers()) > 0 {
+				siteFns = append(siteFns, g)
+			}
+		}
+	}
+	for _, s := range errorSites(siteFns) {
 		for d := s.call.Block(); d != nil; d = d.Idom() {
 			id := d.Idom()
 			if id == nil {
@@ -100,9 +109,12 @@ func c10ReadConfig(e *Env, rule string) {
 				}
 			}
 			// len(p) > 1 on a value looked up in the bookkeeping map
-			if bo, ok := iff.Cond.(*ssa.BinOp); ok && bo.Op == token.GTR && edge {
-				if k, ok := constInt(bo.Y); ok && k == 1 {
-					guards["matches>1"] = true
+			if bo, ok := iff.Cond.(*ssa.BinOp); ok {
+				if k, ok := constInt(bo.Y); ok {
+					if (bo.Op == token.GTR && k == 1 && edge) || (bo.Op == token.LEQ && k == 1 && !edge) ||
+						(bo.Op == token.GEQ && k == 2 && edge) || (bo.Op == token.LSS && k == 2 && !edge) {
+						guards["matches>1"] = true
+					}
 				}
 			}
 		}
